@@ -733,6 +733,30 @@ func (r *yieldRewriter) rewriteBreakContinues(body *ast.BlockStmt) {
 		enterFuncLit = funcLitStack.push
 		exitFuncLit  = funcLitStack.pop
 
+		// whether the nearest breakable construct of the SOURCE is a switch,
+		// looking through the callback bodies generated for the stmts following a yield,
+		// e.g. `case 1: Yield(1); break` => `case 1: return Bind(1, func() { break })`
+		srcSwitchStack = mkStack[bool](false)
+		enterSrcSwitch = srcSwitchStack.push
+		exitSrcSwitch  = srcSwitchStack.pop
+		inSrcSwitch    = srcSwitchStack.top
+
+		isGeneratedFuncLit = func(f *ast.FuncLit) bool { return f.Type.Func == token.NoPos }
+		isMonadicLoop      = func(call *ast.CallExpr) bool {
+			idx, ok := call.Fun.(*ast.IndexExpr)
+			if !ok {
+				return false
+			}
+			name := ""
+			switch x := idx.X.(type) {
+			case *ast.SelectorExpr:
+				name = x.Sel.Name
+			case *ast.Ident:
+				name = x.Name
+			}
+			return name == cstFor || name == cstForPost || name == cstWhile || name == cstLoop
+		}
+
 		doRewrite = func(n *ast.BranchStmt) (_ ast.Node) {
 			switch n.Tok {
 			case token.BREAK:
@@ -740,6 +764,10 @@ func (r *yieldRewriter) rewriteBreakContinues(body *ast.BlockStmt) {
 					return
 				}
 				r.assert(n.Label == nil, n, "break with label not supported")
+				if inSrcSwitch() {
+					// leave the switch: continue with the stmts following it
+					return X.Return(r.CallNormal())
+				}
 				return X.Return(r.CallBreak())
 			case token.CONTINUE:
 				if inLoop() {
@@ -782,12 +810,19 @@ func (r *yieldRewriter) rewriteBreakContinues(body *ast.BlockStmt) {
 		switch n := n.(type) {
 		case *ast.ForStmt, *ast.RangeStmt:
 			enterLoop(true)
+			enterSrcSwitch(false)
 		case *ast.SwitchStmt, *ast.TypeSwitchStmt:
 			enterSwitch(true)
+			enterSrcSwitch(true)
 		case *ast.FuncLit:
 			enterLoop(false)
 			enterSwitch(false)
 			enterFuncLit(n)
+			enterSrcSwitch(isGeneratedFuncLit(n) && inSrcSwitch())
+		case *ast.CallExpr:
+			if isMonadicLoop(n) {
+				enterSrcSwitch(false)
+			}
 		}
 		return true
 	}, func(c *astutil.Cursor) bool {
@@ -795,12 +830,19 @@ func (r *yieldRewriter) rewriteBreakContinues(body *ast.BlockStmt) {
 		switch n := n.(type) {
 		case *ast.ForStmt, *ast.RangeStmt:
 			exitLoop()
+			exitSrcSwitch()
 		case *ast.SwitchStmt, *ast.TypeSwitchStmt:
 			exitSwitch()
+			exitSrcSwitch()
+		case *ast.CallExpr:
+			if isMonadicLoop(n) {
+				exitSrcSwitch()
+			}
 		case *ast.FuncLit:
 			exitLoop()
 			exitSwitch()
 			exitFuncLit()
+			exitSrcSwitch()
 		case *ast.BranchStmt:
 			n1 := doRewrite(n)
 			if n1 != nil {
